@@ -6,6 +6,12 @@ import time
 
 VERIF = os.path.abspath(os.path.join(os.path.dirname(__file__), "..", "..", ".."))
 
+# dry mode: used by the thorough tier's checker self-test (seeded changes applied to a scratch copy):
+# finish() then prints nothing and writes nothing, it only records what was found.
+DRY = False
+LAST = None
+EXTRA_COVERAGE = {}
+
 
 class Violation:
     def __init__(self, rule, key, where, msg, detail=None):
@@ -77,6 +83,11 @@ def load_known():
 
 def finish(res, explanation, checker_cmd=None, trusted_base=None, tv=None):
     """Print verdict lines, write evidence + replay files, return exit code."""
+    global LAST
+    if DRY:
+        known_keys0 = {(k["rule"], k["key"]) for k in load_known() if k.get("property") == res.prop and k.get("status") == "open"}
+        LAST = [v for v in res.violations if (v.rule, v.key) not in known_keys0]
+        return 1 if LAST else 0
     known = [k for k in load_known() if k.get("property") == res.prop and k.get("status") == "open"]
     known_keys = {(k["rule"], k["key"]): k for k in known}
     ev_dir = os.path.join(VERIF, "evidence")
@@ -138,6 +149,7 @@ def finish(res, explanation, checker_cmd=None, trusted_base=None, tv=None):
         "notes": res.notes,
     }
     cov.update(res.extra)
+    cov.update(EXTRA_COVERAGE)
     if res.level == "proof":
         obl = res.obligations
         cov["obligations"] = len(obl)
